@@ -111,10 +111,17 @@ structure Profile where
   iqlBase : Bool      -- inherits LinearOperator.inv_quad_logdet
   sampleBase : Bool   -- inherits LinearOperator.zero_mean_mvn_samples
   lanczosBase : Bool  -- inherits `_root_decomposition` / `_root_inv_decomposition` (Lanczos, with the side write)
+  symeigDense : Bool  -- `_symeig` goes through `self.to_dense()` (base class); Diag reads its diagonal instead
+  rootCached : Bool   -- `root_decomposition` is the memoised base method (Chol/Root operators return `self`, unmemoised)
+  rootInvCached : Bool -- `root_inv_decomposition` is the memoised base method (Chol inverts its factor, unmemoised)
   deriving Repr, DecidableEq
 
-def Profile.base : Profile := ⟨false, true, false, true, true, true⟩
-def Profile.sum : Profile := ⟨false, true, true, true, true, true⟩
+def Profile.base : Profile := ⟨false, true, false, true, true, true, true, true, true⟩
+def Profile.sum : Profile := ⟨false, true, true, true, true, true, true, true, true⟩
+/-- DiagLinearOperator: bare `cholesky` key, memoised `to_dense`, own inv_quad_logdet / sampling / (inverse) root hooks. -/
+def Profile.diag : Profile := ⟨true, false, true, false, false, false, false, true, true⟩
+/-- CholLinearOperator: `_cholesky` returns the stored factor; `root_decomposition` is `self`; own inverse root. -/
+def Profile.chol : Profile := ⟨false, false, true, false, true, true, true, false, false⟩
 
 structure St where
   cache : Cache
@@ -174,6 +181,16 @@ def cholesky (upper : Bool) (s : St) : St × Val :=
   | .chol u mm => (r.1, .chol (if upper then !u else u) mm)
   | v => (r.1, v)
 
+/-- The internal hook `_cholesky(upper)` called directly (what BatchRepeat / Kronecker-type overrides may do): memoised
+per `upper` — for `cholBare` classes under the single bare key, which is sound because their factor is diagonal
+(stored normalised as "lower"; it is also the upper factor). -/
+def cholHook (upper : Bool) (s : St) : St × Val :=
+  let r := cachedCall (cholKey P upper)
+    (fun s => (if P.cholLogs then s.log ["chol"] else s, Val.chol (if P.cholBare then false else upper) m)) s
+  match r.2 with
+  | .chol u mm => (r.1, .chol (if P.cholBare then upper else u) mm)
+  | v => (r.1, v)
+
 def chooseRootMethod (c : Cache) : String :=
   if c.hasFirst "symeig" then "symeig"
   else if c.hasFirst "diagonalization" then "diagonalization"
@@ -184,7 +201,7 @@ def toDense (s : St) : St × Val :=
   if P.denseKey then cachedCall denseKey (fun s => (s, Val.dense m)) s else (s, Val.dense m)
 
 /-- `_symeig`: `torch.linalg.eigh(self.to_dense())` — touches the memoised `to_dense`. -/
-def symeigRun (s : St) : St := ((toDense P m s).1).log ["symeig"]
+def symeigRun (s : St) : St := if P.symeigDense then ((toDense P m s).1).log ["symeig"] else s
 
 def diagzBody (meth : String) (s : St) : St × Val :=
   if meth == "lanczos" then ({ cache := s.cache, run := s.run + 1, logs := s.logs ++ ["lanczos", "symeig"] }, Val.diagz (s.run + 1) m)
@@ -230,7 +247,8 @@ def rootCompute (c : Call) (s : St) : St × Val :=
     | none => chooseRootMethod σ n s.cache) s
 
 def rootDecomp (c : Call) (s : St) : St × Val :=
-  cachedCall (rootKey c) (rootCompute P σ n m c) s
+  if P.rootCached then cachedCall (rootKey c) (rootCompute P σ n m c) s
+  else (s, Val.root .chol true true m)
 
 def rootInvBody (meth : String) (s : St) : St × Val :=
   if meth == "cholesky" then
@@ -260,7 +278,8 @@ def rootInvCompute (c : Call) (s : St) : St × Val :=
     | none => chooseRootMethod σ n s.cache) s
 
 def rootInvDecomp (c : Call) (s : St) : St × Val :=
-  cachedCall (rootInvKey c) (rootInvCompute P σ n m c) s
+  if P.rootInvCached then cachedCall (rootInvKey c) (rootInvCompute P σ n m c) s
+  else (s, Val.rootInv .chol m)
 
 /-- `eigh` / `eigvalsh`: pop `symeig||eigenvectors=True` if present, returning `(evals, None)`. -/
 def eigh (s : St) : St × Val :=
@@ -291,6 +310,7 @@ def sample (s : St) : St × Val :=
 inductive Query
   | toDense
   | cholesky (upper : Bool)
+  | cholHook (upper : Bool)
   | root (c : Call)
   | rootInv (c : Call)
   | diagz (c : Call)
@@ -305,6 +325,7 @@ def runQuery (q : Query) (s : St) : St × Val :=
   match q with
   | .toDense => toDense P m s
   | .cholesky u => cholesky P m u s
+  | .cholHook u => cholHook P m u s
   | .root c => rootDecomp P σ n m c s
   | .rootInv c => rootInvDecomp P σ n m c s
   | .diagz c => diagonalization P σ n m c s
@@ -385,6 +406,7 @@ def answerOk (m : Nat) (q : Query) (v : Val) : Prop :=
   match q, v with
   | .toDense, .dense a => a = m
   | .cholesky u, .chol u' a => a = m ∧ u' = u
+  | .cholHook u, .chol u' a => a = m ∧ u' = u
   | .root _, .root _ tri triOk a => a = m ∧ (tri = true → triOk = true)
   | .rootInv _, .rootInv _ a => a = m
   | .diagz _, .diagz _ a => a = m
